@@ -381,7 +381,7 @@ def call_method(I, recv, name, args, kwargs, fr):
                         I.raise_builtin('ValueError', 'length argument must be non-negative')
                     if not p.branch(z3.And(z3.Or(k > 0, x == 0), z3.Or(k == 0, z3.And(lo <= x, x < hi))), 'to_bytes'):
                         I.raise_builtin('OverflowError', 'int too big to convert')
-                r = I.call_spec('tc_bytes', VInt(x), VInt(k))
+                r = I.call_spec('be_bytes', VInt(x), VInt(k))
             elif z3.is_false(sg):
                 if not fr.spec:
                     if p.branch(k < 0, 'to_bytes.len'):
